@@ -7,7 +7,7 @@
 From Emmet Require Import lib.Base model.MarkupTokenizer model.MarkupParser model.MarkupConvert
      model.MarkupResolve model.OutStream model.FormatHtml model.FormatIndent model.MarkupExpand.
 From Emmet Require Import proofs.ParserSpine proofs.ParserGroups proofs.TokenizeRender proofs.NumberingProofs
-     proofs.ConvertProofs proofs.HtmlEvents proofs.ExpandTree proofs.ExpandFlat proofs.ExpandRepeat
+     proofs.ConvertProofs proofs.IndentStream proofs.HtmlEvents proofs.ExpandTree proofs.ExpandFlat proofs.ExpandRepeat
      proofs.ExpandGroupsTok.
 Local Open Scope nat_scope.
 
@@ -308,7 +308,7 @@ Definition swfb_with (F : sunit -> bool) :=
     end.
 Fixpoint swfb_unit (u : sunit) : bool :=
   match u with
-  | UE n r => good_name n && rep_okb r
+  | UE n r => wide_name n && rep_okb r
   | UG body r => swfb_with swfb_unit body && rep_okb r
   end.
 Definition swfb (xs : sstmt) : bool := swfb_with swfb_unit xs.
@@ -330,18 +330,42 @@ Theorem swfb_unit_ok : forall u, swfb_unit u = true -> swf_unit u.
 Proof.
   induction u as [n r|body r IH] using sunit_ind'; intros H; cbn [swfb_unit swf_unit] in *;
     apply andb_prop in H; destruct H as [H1 H2].
-  - split; [apply good_name_ok, H1|apply rep_okb_ok, H2].
+  - split; [apply wide_name_ok, H1|apply rep_okb_ok, H2].
   - split; [apply swfb_stmt; assumption|apply rep_okb_ok, H2].
 Qed.
 
 Theorem swfb_ok xs : swfb xs = true -> swf xs.
 Proof. apply swfb_stmt. apply Forall_forall. intros x _. apply swfb_unit_ok. Qed.
 
+(* ================================================================ wide names are fine for the pipeline *)
+Definition name_fine_w (x : xconfig) (n : str) : bool :=
+  wide_name n && no_snippet (xc_m x) n && not_lorem n.
+
+Lemma wide_name_clean n : wide_name n = true -> nolt n = true /\ nocrlf n = true /\ name_start n = true.
+Proof.
+  destruct n as [|c r]; [discriminate|]. cbn [wide_name]. intros H. apply andb_prop in H. destruct H as [Hc Hr].
+  assert (Hall : forall y, In y (c :: r) -> namec y = true).
+  { intros y [<-|Hy]; [apply alpha_namec, Hc|]. rewrite forallb_forall in Hr. apply Hr, Hy. }
+  repeat split.
+  - unfold nolt. apply forallb_forall. intros y Hy. rewrite (namec_not y c_lt (Hall y Hy)) by (unfold c_lt; lia). reflexivity.
+  - unfold nocrlf. apply forallb_forall. intros y Hy. unfold IndentStream.is_crlf.
+    rewrite (namec_not y c_cr (Hall y Hy)) by (unfold c_cr; lia).
+    rewrite (namec_not y c_nl (Hall y Hy)) by (unfold c_nl; lia). reflexivity.
+  - cbn [name_start]. rewrite (alpha_not c c_slash Hc) by (unfold c_slash; lia).
+    rewrite (alpha_not c c_excl Hc) by (unfold c_excl; lia). reflexivity.
+Qed.
+
+Lemma name_fine_w_sem x n : name_fine_w x n = true -> name_sem x n = true.
+Proof.
+  unfold name_fine_w, name_sem. intros H. apply andb_prop in H. destruct H as [H H3]. apply andb_prop in H. destruct H as [H1 H2].
+  destruct (wide_name_clean n H1) as [A [B C]]. rewrite A, B, C, H2, H3. destruct n; [discriminate|reflexivity].
+Qed.
+
 (* ================================================================ C01 with groups, end to end *)
 (* configuration side; well-formed statement; every written name fine; element copies + group
    copies of the unrolled statement within the repeat budget *)
 Definition grp_ok (x : xconfig) (xs : sstmt) : bool :=
-  cfg_ok x && swfb xs && forallb (name_fine x) (snames xs) &&
+  cfg_ok x && swfb xs && forallb (name_fine_w x) (snames xs) &&
   (Z.of_nat (cost3 xs) <=? budget_of (mc_max_repeat (xc_m x)))%Z.
 
 Theorem expand_tree_groups (x : xconfig) (xs : sstmt) :
@@ -356,15 +380,15 @@ Proof.
   pose proof (toks_render3 xs Hwf) as Htok.
   destruct (parse_gflat (mc_jsx (xc_m x)) _ _ (lay_stmt_gflat (mc_jsx (xc_m x)) xs Hwf 0)) as [Hp Hm].
   set (root := closed (grun (fst (lay_stmt 0 xs)) root0)) in *.
-  destruct (stmt_marks (name_fine x) xs (proj2 (Forall_forall _ _) (fun u _ => unit_marks_all (name_fine x) (fst u))) 0 0 0)
+  destruct (stmt_marks (name_fine_w x) xs (proj2 (Forall_forall _ _) (fun u _ => unit_marks_all (name_fine_w x) (fst u))) 0 0 0)
     as [Hall Hsm].
   rewrite <- Hm in Hall, Hsm.
-  pose proof (named_forest_of_marks (name_fine x) root 0 (Hall Hn)) as Hnamed.
+  pose proof (named_forest_of_marks (name_fine_w x) root 0 (Hall Hn)) as Hnamed.
   fold (smk 0 root) in Hsm.
   assert (Hshape : flat_map (nshape 0) root = unrollS3 xs).
   { unfold unrollS3, unrollM. rewrite <- Hsm. rewrite unrollX_forest by lia.
     apply flat_map_ext. intros n. symmetry. apply xshape_nshape. }
-  destruct (expand_tree x (render3 xs) _ _ Hc Htok Hp Hnamed) as [st [He Hnest]].
+  destruct (expand_tree_P (name_fine_w x) x (render3 xs) _ _ (name_fine_w_sem x) Hc Htok Hp Hnamed) as [st [He Hnest]].
   { pose proof (total_list_le_cost root 0) as Hle. unfold cost3 in Hbud. rewrite <- Hsm in Hbud.
     rewrite unrollX_forest in Hbud by lia. lia. }
   exists st. split; [exact He|]. rewrite Hnest, Hshape. reflexivity.
